@@ -2,8 +2,8 @@ SPECIFICATION SimSpec
 CONSTANTS
   Cap = 16
   Readers = {1, 2, 3}
-  MaxAdds = 20
+  MaxAdds = 44
   Fixed = TRUE
-  Depth = 600
-  LagSets <- LagNone
+  Depth = 1600
+  LagSets <- LagLast
 CONSTRAINT Export
